@@ -48,7 +48,7 @@ def showCond : Cond → String
   | .str s => "str:" ++ hexOfStr s
   | .dropped => "dropped"
 
-def showNorm : Except NormErr Int → String
+def showNorm : NormRes → String
   | .ok t => s!"ok:{t}"
   | .error .magnitude => "err:mag"
   | .error .badString => "err:str"
@@ -105,7 +105,7 @@ def answer (line : String) : String :=
     | none => "bad-op"
   | ["since", h] =>
     match unhexStr h with
-    | some s => s!"row={showOpt (sinceCondition s)} pr={prunerTs (.utf8 s)}"
+    | some s => s!"filter={showSV (.utf8 s)} row={showOpt (sinceCondition s)}"
     | none => "bad-op"
   | ["zone", op, cal, tok, z] =>
     match parseOp op, parseJV tok, parseZone z with
